@@ -96,13 +96,13 @@ class C20:
         # ---- R20.3 values: the element burnt for geometry number I, in both cases of `values`
         from sa import seqview
         LEN = seqview.LEN
-        isseq = ("call", ("builtin", "isinstance"), (values, ("tuple", (("builtin", "list"), ("builtin", "tuple")))), ())
+        isl_, ist_ = (("call", ("builtin", "isinstance"), (values, ("builtin", k_)), ()) for k_ in ("list", "tuple"))
         I = ("param", "__i__")
         bad = None
         sh_item = seqview.item(shapes, I) if shapes is not None else None
         sh_len = seqview.length(shapes) if shapes is not None else None
         for is_seq in (False, True):
-            env = {isseq: is_seq}
+            env = {isl_: is_seq, ist_: False}
             it_ = peval(sh_item, env) if sh_item is not None else None
             vt = it_[1][1] if it_ is not None and it_[0] == "tuple" and len(it_[1]) == 2 else None
             if vt is None:
@@ -211,7 +211,7 @@ class C20:
             order_ok = g_i[0] == "call" and g_i[1] == ("ext", "shapely.transform") and g_i[2][:1] == (("call", conv, (("sub", geoms, I),), ()),)
             ln = sh_len
             if ln is not None and ln[0] == "ite":
-                ln = None if not all(peval(sh_len, {isseq: v_}) in (LEN(geoms), LEN(values), ("call", ("builtin", "min"), (LEN(geoms), LEN(values)), ()))
+                ln = None if not all(peval(sh_len, {isl_: v_, ist_: False}) in (LEN(geoms), LEN(values), ("call", ("builtin", "min"), (LEN(geoms), LEN(values)), ()))
                                      for v_ in (False, True)) else LEN(geoms)
             if ln is not None and ln != LEN(geoms) and not (ln[0] == "call" and ln[1] == ("builtin", "min") and LEN(geoms) in ln[2]):
                 order_ok = False
